@@ -34,11 +34,12 @@ Definition hex_vertices (s : mesh) (c : nat) : ub (list nat) :=
   do e7' <- e7;                                       (* halfedge(opposite(Invalid)) *)
   let e8 := opp e7' in
   let v4 := he_to s e8 in
-  do e9 <- prev_he_o s (Some e8) hf2;
-  let v5 := he_to s e9 in
-  do e10 <- prev_he_o s (Some e9) hf2;
-  let v6 := he_to s e10 in
-  let v7 := he_from s e10 in
+  (* an invalid halfedge handle (-1) reads as halfedge 1 in halfedge(); prev(-1, .) stays invalid *)
+  let e9 := prev_he_o s (Some e8) hf2 in
+  let v5 := he_to_o s e9 in
+  let e10 := prev_he_o s e9 hf2 in
+  let v6 := he_to_o s e10 in
+  let v7 := he_from_o s e10 in
   Some [v0; v1; v2; v3; v4; v5; v6; v7].
 
 (* CellSheetCellIter(c, orthDir): neighbours across the halffaces whose position is neither orthDir nor its
